@@ -581,6 +581,7 @@ def random_project2(rng: random.Random) -> Dict[str, Any]:
         ops: List[Any] = []
         local: Dict[str, str] = {}                  # local (possibly dotted) name -> kind
         local_nobase: set = set()                   # local names known to denote a class without bases
+        origin: Dict[str, Tuple[int, str]] = {}     # local name -> (defining module, name there): two names may denote one object
         my_pkg_path = _path(mods, par)
         def rel(target_mi: int) -> Optional[Tuple[int, str]]:
             tp = _path(mods, target_mi)
@@ -622,7 +623,9 @@ def random_project2(rng: random.Random) -> Dict[str, Any]:
             elif form in ("from",) and free(dn):
                 ops.append(frm(path, dn)); local[dn] = dk
             for n_new in set(local) - before:
-                if (dm, n_new.split(".")[-1]) in nobase:
+                last = n_new.split(".")[-1]
+                origin[n_new] = (dm, dn if last in ("R" + dn,) else last)
+                if (dm, origin[n_new][1]) in nobase:
                     local_nobase.add(n_new)
         mine: List[Tuple[str, str]] = []
         for _ in range(rng.randint(1, 3)):
@@ -635,6 +638,8 @@ def random_project2(rng: random.Random) -> Dict[str, Any]:
                 if len(bases) == 2:
                     roots_ = [b for b in bases if b in local_nobase]
                     bases = ([b for b in bases if b not in roots_[-1:]] + roots_[-1:]) if roots_ else bases[:1]
+                    if len(bases) == 2 and origin.get(bases[0], bases[0]) == origin.get(bases[1], bases[1]):
+                        bases = bases[:1]                   # two names of one class: Python rejects the duplicate base
                 body: List[Any] = []
                 if rng.random() < 0.5:
                     body.append(fn(rng.choice(["f", "g"])))
@@ -648,6 +653,9 @@ def random_project2(rng: random.Random) -> Dict[str, Any]:
                         body.insert(0, frm(".".join(_path(mods, dm)), dn, "L" + dn))
                 ops.extend(cls(name, *bases, body=body))
                 local[name] = "class"
+                origin[name] = (mi, name)
+                if any(isinstance(b, dict) and b.get("k") == "class" for b in body):
+                    origin[name + ".In"] = (mi, name + ".In")
                 if not bases:
                     local_nobase.add(name); nobase.add((mi, name))
                 if any(isinstance(b, dict) and b.get("k") == "class" for b in body):
@@ -662,6 +670,9 @@ def random_project2(rng: random.Random) -> Dict[str, Any]:
                 an = "al" + name
                 if an not in local:
                     ops.append(alias(an, src)); local[an] = local[src]
+                    origin[an] = origin.get(src, (mi, src))
+                    if src in local_nobase:
+                        local_nobase.add(an)
         if rng.random() < 0.12 and i + 1 < len(plan) and any(k == "class" and "." not in n and n in [x for x, _ in mine] for n, k in local.items()):
             # an import for the type checker only, of a module defined later
             ops.insert(0, {**frm("p.fwd%d" % (i + 1), "Later"), "tc": True})
